@@ -485,7 +485,8 @@ func (m *Mint) MintTokens(mintTokensRequest nut04.PostMintBolt11Request) (cashu.
 			// note: do not use mintQuote.State here, it could have
 			// already been changed to issued before the error
 			if err := m.db.UpdateMintQuoteState(mintQuote.Id, nut04.Paid); err != nil {
-				return nil, err
+				errmsg := fmt.Sprintf("error updating mint quote state: %v", err)
+				return nil, cashu.BuildCashuError(errmsg, cashu.DBErrCode)
 			}
 			return nil, err
 		}
